@@ -44,7 +44,7 @@ class Scn:
 
     def beh_destroys(self):
         """True if a callback behaviour does more than return a status (destroy / re-enter): outside the scope of HtpParser.tla."""
-        return any(str(b[2]).upper() not in ("OK", "DECLINED", "STOP", "ERROR") for b in self.beh) or any(k in ("g>", "g<", "D") for k, _ in self.arr)
+        return any(str(b[2]).upper() not in ("OK", "DECLINED", "STOP", "ERROR") for b in self.beh) or any(k == "D" for k, _ in self.arr)
 
 
 def parse_t(path):
